@@ -149,12 +149,17 @@ def build_harness():
     return ok, out, exe
 
 
-def build_binary(release=False):
+def build_binary(release=False, hooked=False):
+    """the rapidquilt binary of /repo's working tree; hooked=False: as shipped (guard off);
+    hooked=True: with --cfg opensuse_rapidquilt_verif (scheduling points for C06)"""
     env = dict(ENV)
-    env["CARGO_TARGET_DIR"] = os.path.join(CACHE, "target-bin")
+    tdir = "target-hook" if hooked else "target-bin"
+    if not hooked:
+        env.pop("RUSTFLAGS", None)
+    env["CARGO_TARGET_DIR"] = os.path.join(CACHE, tdir)
     rc, out = sh("cargo build --offline %s 2>&1 | tail -40" % ("--release" if release else ""),
                  cwd=REPO, env=env, timeout=3000)
-    exe = os.path.join(CACHE, "target-bin", "release" if release else "debug", "rapidquilt")
+    exe = os.path.join(CACHE, tdir, "release" if release else "debug", "rapidquilt")
     ok = "Finished" in out and os.path.exists(exe)
     return ok, out, exe
 
